@@ -419,6 +419,33 @@ pub fn run(cfg: &Cfg, rep: &mut Report) {
                 push(&format!("m{} {}", m, label), &bytes);
             }
         }
+        // a spread of input sizes (memory errors that depend on the length of the buffer): modules of exactly
+        // W words around every power of two, made of one-word instructions or of one long string
+        let mut sizes: Vec<usize> = vec![];
+        for k in 5..=(if cfg.tier_thorough { 12 } else { 10 }) {
+            let p2 = 1usize << k;
+            sizes.extend([p2 - 1, p2, p2 + 1, p2 + p2 / 2]);
+        }
+        for (j, wds) in sizes.iter().enumerate() {
+            let mut w = gram::header(0x0001_0600, 0, 100);
+            w.extend([(3 << 16) | 14, 0, 1]);
+            if j % 2 == 0 {
+                while w.len() < *wds {
+                    w.push(1 << 16);
+                }
+            } else {
+                // OpString %7 "aaaa…" filling the rest
+                let rest = wds - w.len();
+                if rest >= 3 {
+                    w.push(((rest as u32) << 16) | 7);
+                    w.push(7);
+                    for q in 0..rest - 2 {
+                        w.push(if q + 3 == rest { 0x0061_6161 } else { 0x6161_6161 });
+                    }
+                }
+            }
+            push(&format!("size {} words", w.len()), &words_to_bytes(&w));
+        }
         for i in 0..40u64 {
             let mut rng = Rng::for_case(cfg.seed, "corpus-noise", i);
             let len = rng.below(120);
